@@ -46,6 +46,23 @@ CHECKS = {
         note="trusted: the walker (lists, tuples, dict keys/values, struct/record fields, depth 4); the catalogue of mutating operations in the walker source; self-containing values are excluded from the frozen-vs-copy comparison of non-mutating operations",
         technique="conservation monitor across freeze + fault-injection style mutation attempts with unfrozen controls",
         ref="DESIGN.md section 3 C04"),
+    "C05": dict(
+        engine="svh",
+        text="Every input (token soups, random strings over the lexer alphabet incl. non-ASCII/astral/CR/NUL/BOM, single-to-triple token mutations and character-range damage of valid generated programs and of the repository's test cases, "
+             "and a corpus of lexical corner cases: escapes, unterminated and prefixed strings, f-string braces, line continuations, deep nesting) is parsed under 6 dialects drawn as chains D<=D' from the 768-point lattice, inside catch_unwind; "
+             "on success the whole public AST is walked asserting span containment, char boundaries, identifier/string-literal spans; on failure the error must have a message and a span inside the file on char boundaries and must render; "
+             "for every comparable pair an input accepted under D must be accepted under D' with identical tree and spans. ASan build in thorough. Held on the inputs parsed.",
+        note="trusted: the AST walker in harness/svh/src/parse.rs; nesting bounded to <=200; a single timeout is inconclusive; the libFuzzer leg of the design is not built (the same oracle runs on generated inputs only)",
+        technique="runtime assertion monitor (totality, span well-formedness, dialect monotonicity) over generated/mutated inputs + ASan",
+        ref="DESIGN.md section 3 C05"),
+    "C06": dict(
+        engine="svh",
+        text="(a) For every text of the shared grammar - every ordered pair of the 21 binary operators in 21 syntactic contexts (exhaustive), all orders of up to 4 parameter / argument kinds (exhaustive), 400 statement/indentation/literal forms, and random "
+             "expressions, statements and token-level mutations - accept/reject and the fully parenthesised canonical tree must equal CPython's; texts whose CPython tree needs a construct Starlark does not have are skipped and counted by reason. "
+             "(b) every parseable module of the full dialect is printed, re-parsed (structurally equal, f-strings compared through their documented desugaring) and printed again (fixed point).",
+        note="trusted: CPython's parser/compiler front end as the reference grammar; the list of intended differences encoded in pylib/ref_ast.py (chained comparison/assignment, positional after *args, unparenthesised tuple as statement / for-iterable / with trailing comma, tabs, numeric and string lexical forms)",
+        technique="differential oracle vs reference parser over exhaustively enumerated operator/parameter contexts + print/parse round-trip monitor",
+        ref="DESIGN.md section 3 C06"),
     "C07": dict(
         engine="svh",
         text="The callable inventory is read from the live tree (all globals + dir() of a value of every type); histories of 200 snippets callee(extreme arguments) / operators / indexing, wrapped in calls, lambdas, comprehensions and native callbacks, "
